@@ -32,7 +32,7 @@ def gen_case(rng):
             nnotes += 1
         elif x < 0.5: src.append("r"); sx.append("(rest)")
         elif x < 0.62:
-            k = rng.randrange(0, 5); vals = {0: lambda: rng.randint(1, 127), 1: lambda: rng.randint(1, 100), 2: lambda: rng.randint(0, 10), 3: lambda: rng.choice([0, 0, 1, 2, 3, 4, 5, 6, 7, 8, 9]), 4: lambda: rng.choice([12, 24, 48, 96, 30])}[k]
+            k = rng.randrange(0, 5); vals = {0: lambda: rng.randint(1, 127), 1: lambda: rng.choice([rng.randint(1, 100), rng.randint(1, 100), rng.randint(1, 100), 101, 120, 150, 200]), 2: lambda: rng.randint(0, 10), 3: lambda: rng.choice([0, 0, 1, 2, 3, 4, 5, 6, 7, 8, 9]), 4: lambda: rng.choice([12, 24, 48, 96, 30])}[k]
             vs = [vals() for _ in range(rng.randrange(1, 5))]
             cyc = rng.random() < 0.4
             name = rng.choice(["onCycle", "C"]) if cyc else rng.choice(["onNote", "N"])
